@@ -61,7 +61,7 @@ def cases(tier, seed):
             # one fault of each kind at each answered step
             steps = range(1, width + 1) if width <= 8 or tier == "thorough" else sorted({1, width, rng.randrange(1, width + 1)})
             for at in steps:
-                for fk in ("silent", "err", "errsame"):
+                for fk in ("silent", "err", "errsame", "stuck"):
                     cs.append({"seq": "write", "value": name, "wdata": data,
                                "unit": memseq.unit(kind, label, list(base), fault=[at, fk])})
     return cs
